@@ -1311,6 +1311,15 @@ def CARD(q):
     return fractions.Fraction(len(q._value))
 
 
+def HAS_TWO_MEMBERS(q):
+    """the Set has at least two (distinct) members"""
+    if smt():
+        a, b = z3.FreshConst(X.V.RefSort, "ma"), z3.FreshConst(X.V.RefSort, "mb")
+        mem = _members(q)
+        return z3.Exists([a, b], z3.And(mem(a), mem(b), a != b))
+    return len(q._value) >= 2
+
+
 def MEMBER_OF(x, q):
     if smt():
         return _members(q)(x.ref)
@@ -1327,8 +1336,11 @@ class _SetAttribute:
     comparison is never evaluated), count is the cardinality; anything else is an undefined attribute."""
     params = dict(name=ObjOf(STRING_X))
     returns = ObjOf(ANY)
-    raises = {"UndefinedAttributeError": lambda s: NOT(_name_is(s, "min", "max", "count"))}
-    raises_if = {"UndefinedOperatorError": lambda s: AND(_name_is(s, "min", "max"), NOT(ET_IS(s.self, RATIONAL_X)))}
+    # two-sided: the order operators are defined for rationals only, so min / max of a set of two or more strings,
+    # booleans or types is rejected (Specification: min / max exist where `<` is defined), never answered some other way
+    raises = {"UndefinedAttributeError": lambda s: NOT(_name_is(s, "min", "max", "count")),
+              "UndefinedOperatorError": lambda s: AND(_name_is(s, "min", "max"), NOT(ET_IS(s.self, RATIONAL_X)),
+                                                      lambda: HAS_TWO_MEMBERS(s.self))}
 
     def pre(s):
         # any element class but Set itself (sets of sets are outside the operator table; sets of types are inside: the
